@@ -16,6 +16,7 @@ import (
 
 	protocol "github.com/longportapp/openapi-protocol/go"
 	_ "github.com/longportapp/openapi-protocol/go/v1"
+	"github.com/longportapp/openapi-protocol/go/verifhook"
 )
 
 func init() {
@@ -147,6 +148,7 @@ func (conn *wsConn) write(data []byte) error {
 	if conn.closed() {
 		return errConnClosed
 	}
+	verifhook.Point("conn.write.before-enqueue")
 
 	select {
 	case conn.writeCh <- data:
@@ -166,6 +168,7 @@ func (conn *wsConn) OnPacket(fn func(*protocol.Packet, error)) {
 			defer close(conn.packetCh)
 
 			for {
+				verifhook.Point("disp.loop")
 				if conn.closed() {
 					// consume all packet
 					if l := len(conn.packetCh); l > 0 {
@@ -290,6 +293,7 @@ func (conn *wsConn) readPacket(data []byte) error {
 	if err != nil {
 		return err
 	}
+	verifhook.Point("ws.before-add")
 	conn.addPacket(packet)
 	return nil
 }
